@@ -349,7 +349,7 @@ for _p, _types, _modes in (("C02", [(88, False), (64, True)], ["debug"]), ("C03"
 # FromStr (a trait form of C17) must agree with from_str_radix(_, 10): the parse families record both forms
 PROPS["C17"]["extra"] = {"quick": [("text", "C10", [24, 64, 128])], "thorough": [("text", "C10", [8, 16, 24, 32, 64, 96, 128, 192, 256])]}
 PROPS["C17"]["mc"] = {"quick": [{"dir": "mc", "module": "MC_Machine.tla", "cfg": "MC_Machine_i4q.cfg", "workers": 6, "timeout": 1800}],
-                      "thorough": [{"dir": "mc", "module": "MC_Machine.tla", "cfg": c, "workers": 10, "xmx": "8g", "timeout": 3000} for c in ("MC_Machine_u4.cfg", "MC_Machine_i4.cfg", "MC_Machine_u4r.cfg", "MC_Machine_i6.cfg")]}
+                      "thorough": [{"dir": "mc", "module": "MC_Machine.tla", "cfg": c, "workers": 10, "xmx": "8g", "timeout": 3000} for c in ("MC_Machine_u4.cfg", "MC_Machine_i4.cfg", "MC_Machine_u4r.cfg", "MC_Machine_i6.cfg", "MC_Machine_i2d5.cfg", "MC_Machine_u2d5r.cfg")]}
 
 # model-checking configurations every check runs: the L1 big-number layer underlies every oracle
 PROPS["C16"]["mc"] = {"quick": [L2MC], "thorough": [L2MC, dict(L2MC, cfg="MC_L2_b16.cfg"), dict(L2MC, cfg="MC_L2_b2.cfg")]}
